@@ -331,6 +331,33 @@ bits }` (namespace CB.Gen.SafeGcdLimbs.UnsatInt) and the free functions `fg`, `d
   `&self` is the TUPLE of the struct's fields in declaration order, read from `struct SafeGcdInverter<..> { modulus, adjuster,
   inverse }` on every run (`self.modulus` is component 1; a field of another type than `UnsatInt<UNSAT_LIMBS>` / an integer makes
   the unit's functions `kept_last`); assignment to a `mut` parameter (`value = ..`) re-binds it like any variable.
+Round 4, G19 (the rest of the fixed-size inverter, C10; two units APPENDED to lean/CB/Gen/SafeGcdLimbs.lean, whose earlier definitions
+are unchanged): `impl UnsatInt<LIMBS> { from_uint, to_uint }` (namespace CB.Gen.SafeGcdLimbs.Convert) and
+`impl SafeGcdInverter<SAT_LIMBS, UNSAT_LIMBS> { new, inv }` (namespace CB.Gen.SafeGcdLimbs.InverterApi).  Subset extensions:
+  unit option `limb_convert`: the MACRO `impl_limb_convert!` is expanded in the unit's text before parsing, by substitution — the
+  macro's parameter list and body are READ from src/modular/safegcd/macros.rs on every run, every invocation
+  `impl_limb_convert!(a, b, c, d, e, f);` is replaced by the body with `$name` := the argument (an `expr` argument in parentheses
+  unless it is a path / method chain / literal, a leading `&` dropped; a `ty` argument as it stands; `<T>::X` read as `T::X`).
+  The nested `const fn min(a, b) { if a > b { b } else { a } }` of the macro must have exactly that text (else the functions are
+  `kept_last`); a call `min(x, y)` on `Nat`s is `(if x > y then y else x)`.  `fn f<const SAT_LIMBS: usize>(..)`: the function's
+  own const generic is the unit's `generic2` (an explicit `Nat` argument after `LIMBS`); `panic_guards`: the guard
+  `if LIMBS != safegcd_nlimbs!(..) { panic!(..) }` is dropped and recorded as `-- the source panics if: ..`;
+  `[0; LIMBS]` / `[0 as Word; SAT_LIMBS]` is `List.replicate n 0#64` (a list of plain words), `Self(words)` the `UnsatInt`,
+  `Uint::from_words(words)` the `Uint`, `u.as_words()` the word list of a `Uint`, `words.len()` its length, `arr[i] op= e` on a
+  word list `arr.set i (arr[i] op e)`; `Word::BITS as usize` is the `Nat` 64; `%` and `/` on `Nat`s (bit cursors), `let (i, o) =
+  (bits % 64, bits % 62);`, an `if c { 1 } else { 0 }` expression of type `Nat`; `x >> i` / `x << o` by a `Nat` (amount modulo 64,
+  like every non-constant amount);
+  an eighth `while` form:
+    - `let mut bits = 0; while bits < total { ..; bits += <Nat expression of the body's locals>; }` — the fourth form with a
+      DATA-DEPENDENT step: `<fn>_loop<j> captured.. : Nat → Nat → state.. → state` by recursion on a fuel argument, called with
+      `total - 0`; every round re-tests `bits < total`.  The fuel suffices iff every step is `>= 1`: a proof obligation of the
+      bridge (`convLoop_fuel_succ` of CB/Lemmas/GenSafeGcdConv.lean), not an assumption of the translation.
+  unit option `inverter_api`: `Self { modulus: e1, adjuster: e2, inverse: e3 }` of `SafeGcdInverter` is the tuple of the fields in
+  declaration order (any order in the literal); `Odd<Uint<SAT_LIMBS>>` is a newtype (`.0`); `UnsatInt::from_uint(x)` /
+  `x.to_uint()` resolve to the `Convert` unit and get BOTH limb counts (`from_uint UNSAT_LIMBS SAT_LIMBS x`: a callee with the same
+  two const generics is callable); `self.norm(..)` resolves to the `Inverter` unit; `UnsatInt::MINUS_ONE` / `UnsatInt::ONE` are READ
+  from the source on every run (`Self([Self::MASK; LIMBS])` -> `List.replicate LIMBS MASK`; `{ let mut ret = Self::ZERO;
+  ret.0[K] = V; ret }` -> `(List.replicate LIMBS 0#64).set K V#64`; another defining text -> `kept_last`).
 """
 import os, re, sys, json
 
@@ -3778,6 +3805,301 @@ def translate_file(path, ns, self_ty, want=None, private=False, ext=None, cut=No
     return [n for n, _, _, _ in fns], out, failed, sigs
 
 
+# ---- (G19) `impl_limb_convert!` expanded by macro substitution; `UnsatInt::{from_uint, to_uint}` ----------------------------
+
+_impl_blocks_g19 = impl_blocks
+MIN_SHAPE = re.compile(r'const\s+fn\s+min\s*\(\s*a\s*:\s*usize\s*,\s*b\s*:\s*usize\s*\)\s*->\s*usize\s*\{\s*if\s+a\s*>\s*b\s*\{\s*b\s*\}\s*else\s*\{\s*a\s*\}\s*\}')
+
+
+def read_limb_convert_macro():
+    """the macro `impl_limb_convert!` of src/modular/safegcd/macros.rs: (parameter names with kinds, body text without the nested
+    `const fn min`, whose text must be the expected `if a > b { b } else { a }`) — read on every run"""
+    try:
+        text = open(os.path.join(REPO, 'src/modular/safegcd/macros.rs')).read()
+    except OSError:
+        raise Unsupported('src/modular/safegcd/macros.rs not found')
+    text = re.sub(r'//[^\n]*', '', text)
+    m = re.search(r'macro_rules!\s*impl_limb_convert\s*\{\s*\(([^)]*)\)\s*=>\s*\{\{', text)
+    if not m:
+        raise Unsupported('macro impl_limb_convert! not found / another shape')
+    params = re.findall(r'\$(\w+)\s*:\s*(\w+)', m.group(1))
+    end = _balanced_end(text, m.end())
+    body = text[m.end():end - 1]
+    mm = MIN_SHAPE.search(body)
+    if not mm:
+        raise Unsupported('the nested `const fn min` of impl_limb_convert! changed')
+    body = body[:mm.start()] + body[mm.end():]
+    if 'fn ' in body:
+        raise Unsupported('impl_limb_convert!: nested items')
+    return params, body
+
+
+def expand_limb_convert(src):
+    """every `impl_limb_convert!(a, b, c, d, e, f);` of `src` replaced by the macro body with `$name` substituted (an `expr`
+    argument in parentheses, as the macro expander does; a `ty` argument as it stands; `<T>::X` is `T::X`)"""
+    while True:
+        m = re.search(r'\bimpl_limb_convert\s*!\s*\(', src)
+        if not m:
+            return src
+        params, body = read_limb_convert_macro()
+        end = _balanced_end(src, m.end(), '(', ')')
+        args = [a.strip() for a in split_top(src[m.end():end - 1])]
+        if len(args) != len(params):
+            raise Unsupported('impl_limb_convert!: argument count')
+        for (n, kind), a in zip(params, args):
+            a = re.sub(r'^&\s*', '', a)
+            simple = re.match(r'[\w.]+(\(\))?$', a) or re.match(r'\d+$', a)
+            body = re.sub(r'\$' + n + r'\b', a if (kind == 'ty' or simple) else f'({a})', body)
+        body = re.sub(r'<\s*(\w+)\s*>\s*::', r'\1::', body)
+        j = end
+        while j < len(src) and src[j] in ' \t\n':
+            j += 1
+        if j < len(src) and src[j] == ';':
+            j += 1
+        src = src[:m.start()] + body + src[j:]
+
+
+def impl_blocks(src, self_ty):
+    out = _impl_blocks_g19(src, self_ty)
+    if OPTS.get('limb_convert') and self_ty == 'UnsatInt':
+        out = expand_limb_convert(out)
+        # `fn from_uint<const SAT_LIMBS: usize>(..)`: the second const generic is the unit's `generic2` (an explicit `Nat` argument)
+        out = re.sub(r'(\bfn\s+\w+)\s*<\s*const\s+SAT_LIMBS\s*:\s*usize\s*>', r'\1', out)
+    return out
+
+
+_ex_g19, _is_nat_g19, _run_g19 = Gen.ex, Gen.is_nat, Gen.run
+
+
+def _g19_is_nat(self, e, env):
+    if OPTS.get('limb_convert'):
+        if e[0] == 'bin' and e[1] in ('%', '/'):
+            return self.is_nat(e[2], env) or self.is_nat(e[3], env)
+        if e[0] == 'call' and e[1] == ['min']:
+            return True
+    return _is_nat_g19(self, e, env)
+
+
+def _g19_nat(self, e, env):
+    t, ty = self.ex(e, env, 'nat')
+    if ty != 'nat':
+        raise Unsupported('index arithmetic: ' + str(ty))
+    return t
+
+
+def _g19_ex(self, e, env, want=None):
+    if not OPTS.get('limb_convert'):
+        return _ex_g19(self, e, env, want)
+    k = e[0]
+    if k == 'as' and e[2] == 'usize' and e[1][0] == 'path' and e[1][1] in (['Word', 'BITS'], ['u64', 'BITS'], ['Limb', 'BITS']):
+        return ('64', 'nat') if want in ('nat', None) else _ex_g19(self, e, env, want)     # `Word::BITS as usize` (64-bit configuration)
+    if k == 'bin' and e[1] in ('%', '/') and (want == 'nat' or self.is_nat(e, env)):
+        return f'({_g19_nat(self, e[2], env)} {e[1]} {_g19_nat(self, e[3], env)})', 'nat'
+    if k == 'call' and e[1] == ['min'] and len(e[2]) == 2:
+        # the nested `const fn min(a, b) { if a > b { b } else { a } }` of the macro (its text is checked on every run)
+        a, b = _g19_nat(self, e[2][0], env), _g19_nat(self, e[2][1], env)
+        return f'(if {a} > {b} then {b} else {a})', 'nat'
+    if k == 'ifexpr' and want == 'nat' and len(e) == 4 and not e[2][0] and not e[3][0]:
+        return f'(if {self.cond_prop(e[1], env)} then {_g19_nat(self, e[2][1], env)} else {_g19_nat(self, e[3][1], env)})', 'nat'
+    if k == 'arrayrep':
+        el = e[1][1] if e[1][0] == 'as' and e[1][2] in ('Word', 'u64') else e[1]
+        if el[0] == 'lit' and not el[2]:
+            n, tn = self.ex(e[2], env, 'nat')
+            if tn == 'nat':
+                return f'(List.replicate {atom(n)} {el[1]}#64)', 'words'      # `[0; LIMBS]` / `[0 as Word; SAT_LIMBS]`
+    if k == 'call' and e[1] == ['Self'] and self.self_ty == 'UnsatInt' and len(e[2]) == 1:
+        t, ty = self.ex(e[2][0], env)
+        if ty == 'words':
+            return t, 'unsat'
+    if k == 'call' and e[1] == ['Uint', 'from_words'] and len(e[2]) == 1:
+        t, ty = self.ex(e[2][0], env)
+        if ty == 'words':
+            return t, 'uint'
+    if k == 'method' and not e[3] and e[1] in ('as_words', 'len'):
+        r, tr = self.ex(e[2], env)
+        if e[1] == 'as_words' and tr == 'uint':
+            return r, 'words'
+        if e[1] == 'len' and tr == 'words':
+            return f'{atom(r)}.length', 'nat'
+    return _ex_g19(self, e, env, want)
+
+
+def _g19_run(self, stmts, env, lines, declared=None):
+    if OPTS.get('limb_convert'):
+        out = []
+        for st in stmts:
+            if st[0] == 'assign_idx' and st[1] in env and env[st[1]][1] == 'words':
+                # flush what precedes, then `arr[i] op= e` on a list of plain words
+                _run_g19(self, out, env, lines, declared)
+                out = []
+                _, name, idx, op, rhs = st
+                e = rhs if op == '=' else ('bin', op[:-1], ('index', ('var', name), idx), rhs)
+                ix = _g19_nat(self, idx, env)
+                t, ty = self.ex(e, env, 64)
+                if ty != 64:
+                    raise Unsupported('array element of type ' + str(ty))
+                self.bind(name, f'{atom(env[name][0])}.set {atom(ix)} {atom(t)}', 'words', env, lines)
+            else:
+                out.append(st)
+        return _run_g19(self, out, env, lines, declared)
+    return _run_g19(self, stmts, env, lines, declared)
+
+
+Gen.ex, Gen.is_nat, Gen.run = _g19_ex, _g19_is_nat, _g19_run
+
+
+_emit_loop_up_g19, _loop_up_text_g19 = Gen.emit_loop_up, Gen.loop_up_text
+
+
+def _g19_emit_loop_up(self, cond, body, env, lines):
+    """(G19) an eighth `while` form: `while bits < total { ..; bits += <Nat expression of the body's locals>; }` — the fourth form
+    with a DATA-DEPENDENT step: the same auxiliary definition by recursion on a fuel argument (BOUND - start, which suffices when
+    every step is >= 1: a proof obligation of the bridge), every round re-testing `bits < total`."""
+    i = cond[2][1]
+    if (OPTS.get('limb_convert') and body and body[-1][0] == 'assign' and body[-1][1] == i and body[-1][2] == '+='
+            and body[-1][3][0] != 'lit'):
+        if i in free_vars(cond[3], []):
+            raise Unsupported('loop bound')
+        self.g19_step = body[-1][3]
+        try:
+            r = _emit_loop_up_g19(self, cond, list(body[:-1]) + [('assign', i, '+=', ('lit', 1, None))], env, lines)
+        finally:
+            self.g19_step = None
+        env.pop(i, None)        # the counter after the loop is not tracked
+        return r
+    return _emit_loop_up_g19(self, cond, body, env, lines)
+
+
+def _g19_loop_up_text(self, i, step, bound_e, rest, state, styp, captured, env):
+    if getattr(self, 'g19_step', None) is None:
+        return _loop_up_text_g19(self, i, step, bound_e, rest, state, styp, captured, env)
+    step_e, self.g19_step = self.g19_step, None
+    try:
+        self.nloop += 1
+        aux = f'{self.fname}_loop{self.nloop}'
+        env2 = {}
+        for v in captured:
+            env2[v] = (self.fresh('self_' if v == 'self' else v, env2), env[v][1])
+        for s, ty in zip(state, styp):
+            env2[s] = (self.fresh(s, env2), ty)
+        nvar = self.fresh('n', env2)
+        env2['\0n'] = (nvar, 'nat')
+        env2[i] = (self.fresh(i, env2), 'nat')
+        ivar = env2[i][0]
+        outer, declared = set(env2), set()
+        pat = ', '.join(env2[s][0] for s in state)
+        tup = f'({pat})' if len(state) > 1 else pat
+        capb = ''.join(f' ({env2[v][0]} : {lean_ty(env2[v][1])})' for v in captured)
+        capa = ''.join(f' {env2[v][0]}' for v in captured)
+        bound, tb = self.ex(bound_e, env2, 'nat')
+        if tb != 'nat':
+            raise Unsupported('loop bound of type ' + str(tb))
+        lines2 = []
+        self.run(rest, env2, lines2, declared)
+        if declared & outer:
+            raise Unsupported('loop body shadows an outer variable')
+        if any(env2[s][1] != ty for s, ty in zip(state, styp)):
+            raise Unsupported('loop state changes type')
+        stept = _g19_nat(self, step_e, env2)
+        res = ' × '.join(lean_ty(t) for t in styp)
+        text = (f'@[gen_defs] def {aux}{capb} : Nat → Nat → ' + ' → '.join(lean_ty(t) for t in styp) + f' → {res}\n'
+                + f'  | 0, {ivar}, {pat} => {tup}\n'
+                + f'  | {nvar} + 1, {ivar}, {pat} =>\n    if {ivar} < {bound} then\n      ' + join_lines('\n      ', lines2)
+                + f'\n      {self.ns}.{aux}{capa} {nvar} ({ivar} + {stept}) ' + ' '.join(env2[s][0] for s in state)
+                + f'\n    else {tup}')
+        bound_out, tbo = self.ex(bound_e, env, 'nat')
+        return text, aux, capa, bound_out
+    finally:
+        self.g19_step = step_e
+
+
+Gen.emit_loop_up, Gen.loop_up_text = _g19_emit_loop_up, _g19_loop_up_text
+
+
+# ---- (G19) `SafeGcdInverter::{new, inv}`: calls into the conversion unit (two const generics), struct literal, ONE / MINUS_ONE ----
+
+_ty_of_g19, _lookup_g19, _call_g19, _ex_g19b = ty_of, Gen.lookup, Gen.call, Gen.ex
+_read_unsat_consts_g19 = read_unsat_consts
+
+
+def read_unsat_consts(src):
+    """also `MINUS_ONE = Self([Self::MASK; LIMBS])` and `ONE = { let mut ret = Self::ZERO; ret.0[0] = 1; ret }` (read on every run)"""
+    _read_unsat_consts_g19(src)
+    if 'MASK' in UNSAT_CONSTS and re.search(r'\bconst\s+MINUS_ONE\s*:\s*Self\s*=\s*Self\(\s*\[\s*Self::MASK\s*;\s*LIMBS\s*\]\s*\)\s*;', src):
+        UNSAT_CONSTS['MINUS_ONE'] = '(List.replicate {L} ' + UNSAT_CONSTS['MASK'] + ')'
+    m = re.search(r'\bconst\s+ONE\s*:\s*Self\s*=\s*\{\s*let\s+mut\s+(\w+)\s*=\s*Self::ZERO\s*;\s*(\w+)\.0\[(\d+)\]\s*=\s*(\d+)\s*;\s*(\w+)\s*\}\s*;', src)
+    if 'ZERO' in UNSAT_CONSTS and m and m.group(1) == m.group(2) == m.group(5):
+        UNSAT_CONSTS['ONE'] = '((List.replicate {L} 0#64).set ' + m.group(3) + ' ' + m.group(4) + '#64)'
+
+
+def ty_of(t, self_ty):
+    t0 = t.strip()
+    if OPTS.get('inverter_api') and OPTS.get('generic2') and re.match(r'Odd\s*<\s*Uint\s*<\s*' + OPTS['generic2'] + r'\s*>\s*>$', t0):
+        return 'odduint'
+    return _ty_of_g19(t, self_ty)
+
+
+def _g19_lookup(self, name, where):
+    if where == 'inverter':
+        c = (self.ext.get('g19') or {}).get('inverter')
+        return (c[0], c[1].get(name)) if c else (None, None)
+    ns, sig = _lookup_g19(self, name, where)
+    if sig is None and where == 'unsat' and OPTS.get('inverter_api'):
+        c = (self.ext.get('g19') or {}).get('convert')
+        if c and name in c[1]:
+            return c[0], c[1][name]
+    return ns, sig
+
+
+def _g19_call(self, name, args, env, where='self'):
+    ns, sig = self.lookup(name, where)
+    g2 = OPTS.get('generic2')
+    if OPTS.get('inverter_api') and sig is not None and (ns, name) in GENERIC2_FNS and g2 and env.get(g2, (None, None))[1] == 'nat':
+        # a callee with the same two const generics (`UnsatInt::from_uint::<SAT_LIMBS>` from `impl SafeGcdInverter<SAT_LIMBS,
+        # UNSAT_LIMBS>`): both limb counts are passed on
+        GENERIC2_FNS.discard((ns, name))
+        try:
+            t, ty = _call_g19(self, name, args, env, where)
+        finally:
+            GENERIC2_FNS.add((ns, name))
+        head = f'({ns}.{name} {env[self.generic][0]} '
+        if not t.startswith(head):
+            raise Unsupported('call of ' + name)
+        return head + env[g2][0] + ' ' + t[len(head):], ty
+    return _call_g19(self, name, args, env, where)
+
+
+def _g19_ex2(self, e, env, want=None):
+    if not OPTS.get('inverter_api'):
+        return _ex_g19b(self, e, env, want)
+    k = e[0]
+    if k == 'struct' and e[1] == 'Self' and self.self_ty == 'SafeGcdInverter' and INVERTER_FIELDS:
+        given = dict(e[2])
+        if len(given) != len(e[2]) or set(given) != {f for f, _ in INVERTER_FIELDS}:
+            raise Unsupported('struct literal fields')
+        parts = []
+        for f, fty in INVERTER_FIELDS:
+            t, ty = self.ex(given[f], env, fty)
+            if ty != fty:
+                raise Unsupported(f'field type {ty} for {fty}')
+            parts.append(t)
+        return '(' + ', '.join(parts) + ')', tuple(t for _, t in INVERTER_FIELDS)
+    if k == 'path' and len(e[1]) == 2 and e[1][0] == 'UnsatInt' and e[1][1] in ('ONE', 'MINUS_ONE'):
+        if e[1][1] not in UNSAT_CONSTS or not self.generic or env.get(self.generic, (None, None))[1] != 'nat':
+            raise Unsupported(f'constant UnsatInt::{e[1][1]} changed in the source')
+        return UNSAT_CONSTS[e[1][1]].replace('{L}', env[self.generic][0]), 'unsat'
+    if k == 'method' and e[2] == ('var', 'self') and self.self_ty == 'SafeGcdInverter' and self.lookup(e[1], 'inverter')[1] is not None:
+        return self.call(e[1], [e[2]] + e[3], env, 'inverter')
+    if k == 'field' and e[2] == 0:
+        t, ty = self.ex(e[1], env)
+        if ty == 'odduint':
+            return t, 'uint'
+    return _ex_g19b(self, e, env, want)
+
+
+Gen.lookup, Gen.call, Gen.ex = _g19_lookup, _g19_call, _g19_ex2
+
+
 DIV_LIMB = 'src/uint/div_limb.rs'
 FILES = [
     # (generated file, imports, units); a unit: rust file, lean namespace, impl type or None, description, options
@@ -3938,6 +4260,15 @@ FILES = [
              generic='UNSAT_LIMBS', unsat=True, inverter=True, private=True,
              desc='impl SafeGcdInverter<SAT_LIMBS, UNSAT_LIMBS>: norm (`&self` is the tuple of the fields modulus, adjuster, inverse)',
              want=['norm']),
+        dict(key='unsat_convert', rel=['src/modular/safegcd.rs'], ns='CB.Gen.SafeGcdLimbs.Convert', self_ty='UnsatInt', generic='LIMBS',
+             unsat=True, limb_convert=True, panic_guards=True, generic2='SAT_LIMBS',
+             desc='impl<const LIMBS: usize> UnsatInt<LIMBS>: from_uint, to_uint (the macro impl_limb_convert! expanded: 64-bit words <-> 62-bit words)',
+             want=['from_uint', 'to_uint']),
+        dict(key='inverter_api', rel=['src/modular/safegcd.rs'], ns='CB.Gen.SafeGcdLimbs.InverterApi', self_ty='SafeGcdInverter',
+             generic='UNSAT_LIMBS', generic2='SAT_LIMBS', unsat=True, inverter=True, limb_convert=True, inverter_api=True,
+             use=['safegcd_limbs', 'safegcd'],
+             desc='impl SafeGcdInverter<SAT_LIMBS, UNSAT_LIMBS>: new, inv (the inverter is the tuple of its fields modulus, adjuster, inverse)',
+             want=['new', 'inv']),
     ]),
 ]
 
@@ -4041,6 +4372,9 @@ def main():
             OPTS.update({k: u[k] for k in ('usize_nat',) if u.get(k)})
             OPTS.update({k: u[k] for k in ('usize_param_nat',) if u.get(k)})
             OPTS.update({k: u[k] for k in ('unsat',) if u.get(k)})      # (G18) `UnsatInt<LIMBS>` values
+            OPTS.update({k: u[k] for k in ('limb_convert',) if u.get(k)})      # (G19) `impl_limb_convert!` expanded in the unit's text
+            OPTS.update({k: u[k] for k in ('inverter_api',) if u.get(k)})      # (G19) `SafeGcdInverter::{new, inv}`
+            ext['g19'] = dict(convert=reg.get('unsat_convert'), inverter=reg.get('inverter'))
             ext['unsat'] = reg.get('unsat')
             if u.get('inverter'):
                 try:
